@@ -573,8 +573,8 @@ structure WF (s : S) : Prop where
   sh : Shares.Inv s.sh
   dirs : ∀ d ∈ s.cfg.dirs, d.path ∈ s.sh.paths
 
-theorem wf_init (K : Query.Cls Ch) (cap : Nat) : WF { cls := K, cfg := { cap := cap } } :=
-  ⟨Shares.inv_init, by simp⟩
+theorem wf_init (s : S) (h1 : s.sh = {}) (h2 : s.cfg.dirs = []) : WF s :=
+  ⟨by rw [h1]; exact Shares.inv_init, by simp [h2]⟩
 
 theorem remove_paths_mem {C : Type} [DecidableEq C] (sh : Shares.St C) (p q : List C) (hq : q ∈ sh.paths)
     (hne : q ≠ p) : q ∈ (remove sh p).1.paths := by
